@@ -18,7 +18,7 @@ RULE = ("Enumeration of every (n, limit) with n=3 (limits 1..5), n=4 (limits 1..
         "float32-representable) for a drawn subset of the leaves in a drawn order, optional save/load between iterations. Oracles: "
         "construction succeeds; rank list = every coalition set of size <= limit exactly once, sizes non-decreasing, inverse table "
         "inverts it; before and after every iteration every internal node's regret-matching strategy is finite, >= 0, sums to 1, "
-        "is 0 on coalitions already in the node, and the average strategy is a distribution over original coalition ids supported "
+        "is 0 on coalitions already in the node (judged on a snapshot per node AND on the returned objects held until all nodes were asked and across the next iteration: a strategy once handed out must stay what it was), and the average strategy is a distribution over original coalition ids supported "
         "on viable unrevealed coalitions; ONE-STEP MODEL in float64 from the observed strategies: expected values bottom-up, reach "
         "top-down, cumulative_regret == old + (q - expected) (positive part for plus), cumulative_strategy == old + weight * "
         "strategy * reach; added regret orthogonal to the strategy; plus keeps regret >= 0; save+load+continue == continue, bit for "
@@ -97,8 +97,12 @@ class Sim:
         np = self.np
         from .. import repo
         out = {}
+        held = {}
         for m in (self.internal if nodes is None else nodes):
-            s = np.asarray(self.rm.regret_matching_strategy(int(m)), dtype=np.float64)
+            # what the caller holds (the returned object itself, as a user collecting the strategies of several nodes would) and
+            # a snapshot of it at the time of the call; they are compared once all nodes have been asked
+            held[m] = self.rm.regret_matching_strategy(int(m))
+            s = np.array(held[m], dtype=np.float64, copy=True)
             out[m] = s
             used = bits(m)
             if s.shape != (self.noc,) or not np.all(np.isfinite(s)):
@@ -110,6 +114,13 @@ class Sim:
             if any(s[u] != 0 for u in used):
                 res.fail(f"strategy-on-revealed-coalition :: {where}: node {m} puts mass {[float(s[u]) for u in used]} on its own coalitions {used}")
                 return out
+        for m, h in held.items():
+            if not np.array_equal(np.asarray(h, dtype=np.float64), out[m]):
+                res.fail(f"held-strategy-overwritten :: {where}: the strategy returned for node {m} changed while other nodes were asked "
+                         f"(it now reads {np.asarray(h, dtype=np.float64).tolist()}, it was {out[m].tolist()}): collected strategies are no longer distributions of their nodes")
+                break
+        self.held = held
+        self.held_snap = out
         return out
 
     def averages(self, res: Result, where: str, nodes) -> None:
@@ -147,8 +158,13 @@ class Sim:
         old_str = rm.cumulative_strategy.astype(np.float64).copy()
         leaves = [self.leaves[i] for i in leaf_idx]
         used_actions = [[repo.coal(self.viable[u]) for u in bits(m)] for m in leaves]
+        held, held_snap = self.held, self.held_snap
         rm.regret_min_iteration(np.array(values, dtype=np.float64), used_actions)
         self.iter += 1
+        for m, h in held.items():
+            if not np.array_equal(np.asarray(h, dtype=np.float64), held_snap[m]):
+                res.fail(f"held-strategy-overwritten :: {where}: the strategy handed out for node {m} before the iteration was changed by the iteration")
+                break
         if rm.iteration != self.iter:
             res.fail(f"iteration-counter :: {where}: {rm.iteration} expected {self.iter}")
         # model
